@@ -22,7 +22,10 @@ def parse(dump):
 
 def classify(dump, src):
     """diagnosis only (the verdict is the extracted checker's): which clause fails, in known-finding classes"""
-    srclen, n, T = parse(dump)
+    try:
+        srclen, n, T = parse(dump)
+    except (ValueError, IndexError):
+        return ["tree-dump-garbled"]          # (a tree so broken that the traversal of harness/treedump.c printed nonsense)
     kinds = []
     r = T.get(1)
     if r and (r["ty"] != 0 or r["st"] != 0 or r["nx"] or r["pv"]): kinds.append("root-shape")
@@ -184,6 +187,66 @@ def shrink_script(drv, har, cut):
         pass
     return src + " ; " + " ; ".join(ops)
 
+# ---- the pair matcher: model (coq/model/PairMatch.v, extracted) against token_pairs.c on generated token chains and pairing tables
+
+def gen_match_script(rng, big=False):
+    """a chain of tokens with small type codes (1 '[' 2 ']' 3 '*' 4 '_' 5 '`' 6 '(' 7 ')' 9 text) under a parent, random flags
+    (ambidextrous markers that may only open or only close), a pairing engine in the style of mmd.c (brackets: prune and
+    allow empty; emphasis: mate only; backticks: prune and match length; plus odd combinations), one or two passes"""
+    n = rng.randint(1100, 1400) if big else rng.randint(1, 30)
+    types = [1, 2, 3, 4, 5, 6, 7, 9, 9, 9] if not big else [1, 1, 1, 1, 6, 3, 9, 2, 7]
+    ops, pos = [], 0
+    for i in range(n):
+        t = rng.choice(types); ln = rng.choice([1, 1, 1, 2, 3]) if t in (5, 9) else 1
+        ops.append("N %d %d %d" % (t, pos, ln)); pos += ln + rng.choice([0, 0, 0, 1])
+    for i in range(2, n + 1): ops.append("A 1 %d" % i)
+    ops.append("P 1 77")
+    for i in range(1, n + 1):
+        if rng.random() < (0.3 if not big else 0.02): ops.append("F %d %d %d %d" % (i, rng.random() < 0.7, rng.random() < 0.7, rng.random() < 0.9))
+    prs = [("1 2 50", 5), ("6 7 51", 5), ("3 3 52", 0), ("4 4 53", 0), ("5 5 54", 6), ("3 3 55", 4), ("1 7 56", 4), ("5 2 57", 3)]
+    for pr, o in rng.sample(prs, rng.randint(1, 5)):
+        ops.append("E %s %d" % (pr, o if rng.random() < 0.8 else rng.randint(0, 7)))
+    ops.append("MP %d" % (n + 1))
+    if rng.random() < 0.4: ops.append("MP %d" % (n + 1))
+    return " ; ".join(ops)
+
+
+def heap_coherent(dump):
+    """next/prev and mates of a matcher heap dump '<n> type:start:len:next:prev:child:tail:mate:co:cc:um ...' point back"""
+    try:
+        T = [None] + [[int(x) for x in t.split(":")] for t in dump.split()[1:]]
+    except ValueError:
+        return False
+    for i in range(1, len(T)):
+        nx, pv, mt = T[i][3], T[i][4], T[i][7]
+        if nx and not (0 < nx < len(T) and T[nx][4] == i): return False
+        if pv and not (0 < pv < len(T) and T[pv][3] == i): return False
+        if mt and not (0 < mt < len(T) and T[mt][7] == i): return False
+    return True
+
+
+def matcher_part(rep, tier, rng, drv, bad):
+    har = common.build_harness("asan", "pairmatch")
+    scripts = [gen_match_script(rng) for _ in range(1200 if tier == "quick" else 40000)] + [gen_match_script(rng, big=True) for _ in range(3 if tier == "quick" else 40)]
+    model = common.run_lines_par(drv, scripts, args=["pairmatch"], timeout=1200)
+    impl = common.run_lines_par(har, scripts, timeout=1200)
+    copies = 0
+    for sc, m, i in zip(scripts, model, impl):
+        f = m.split(" ", 2)
+        if m.startswith("CRASH") or len(f) < 3 or f[1] != "ok":
+            bad.append((b"", sc, "matcher-model-stuck", "the matcher model dereferences NULL or runs out of fuel on a well-formed chain: %s" % m[:120])); continue
+        copies += max(0, int(f[2].split()[0]) - sc.count("N ") - 1)
+        if i.startswith("CRASH"):
+            bad.append((b"", sc, "impl-crash", "pair matcher harness crashed: " + i[:200])); continue
+        if not heap_coherent(i):
+            bad.append((b"", sc, "matcher-links-broken", "after token_pairs_match_pairs_inside_token on a well-formed chain a next/prev link or a mate does not "
+                        "point back: %s" % i[:300]))
+        elif f[2] != i:
+            bad.append((b"", sc, "matcher-model-vs-impl", "token_pairs.c and coq/model/PairMatch.v differ: model %s / implementation %s" % (f[2][:200], i[:200])))
+    rep.cov["matcher_scripts"] = len(scripts)
+    rep.cov["matcher_grafts"] = copies
+    return len(scripts)
+
 
 def run(rep, tier, seed):
     rep.cov["trusted_base"] = TRUSTED
@@ -222,6 +285,7 @@ def run(rep, tier, seed):
             for k in classify(dump, d):
                 bad.append((d, c, k, "token tree %s violates the checker clause '%s'" % (stage, k)))
     nsurg = surgery_part(rep, tier, rng, drv, bad)
+    nsurg += matcher_part(rep, tier, rng, drv, bad)
     sel = list(range(len(docs))) if tier == "quick" else list(range(0, len(docs), 3))
     contracts_part(rep, [docs[i] for i in sel], [cases[i] for i in sel], bad)
     rep.cov["evaluations"] = len(docs) + nsurg
@@ -237,8 +301,11 @@ def run(rep, tier, seed):
     for d, c, kind, what in bad:
         if kind in seen: continue
         seen.add(kind)
-        if kind == "surgery-links-broken":
-            rep.violation(kind, what, dict(script=c, no_failing_input=False, replay_cmd="python3 check.py C15 --replay <this file>")); continue
+        if kind in ("surgery-links-broken", "matcher-links-broken"):
+            rep.violation(kind, what, dict(script=c, matcher=kind.startswith("matcher"), no_failing_input=False, replay_cmd="python3 check.py C15 --replay <this file>")); continue
+        if kind in ("matcher-model-vs-impl", "matcher-model-stuck"):
+            rep.violation(kind, what, dict(script=c, matcher=True, no_failing_input=True,
+                                           broken="correspondence coq/model/PairMatch.v <-> src/token_pairs.c (pair_matcher_first_pass_coherent is about the model)")); continue
         if kind == "surgery-model-vs-impl":
             small = shrink_script(drv, common.build_harness("asan", "surgery"), c)
             cc, e, i = surgery_compare(drv, common.build_harness("asan", "surgery"), [small])[0]
@@ -256,6 +323,14 @@ def run(rep, tier, seed):
 def replay(rep, r):
     har = common.build_harness("asan", "treedump")
     drv = common.extract_driver()
+    if r.get("matcher"):
+        rep.cov.update(evaluations=1, distinct_nontrivial=1, obligations=1, discharged=1, checker_cmd="replay", rule="replay")
+        rep.cov["samples"] = [r["script"][:300]]
+        m = common.run_lines(drv, [r["script"]], args=["pairmatch"])[0]; i = common.run_lines(common.build_harness("asan", "pairmatch"), [r["script"]])[0]
+        print("model:", m[:1000]); print("impl :", i[:1000])
+        if not heap_coherent(i): rep.violation("matcher-links-broken", "links or mates do not point back", r)
+        elif m.split(" ", 2)[-1] != i: rep.violation("matcher-model-vs-impl", "model and token_pairs.c differ", dict(r, no_failing_input=True))
+        return
     if "script" in r:
         rep.cov.update(evaluations=1, distinct_nontrivial=1, obligations=1, discharged=1, checker_cmd="replay", rule="replay")
         rep.cov["samples"] = [r["script"]]
